@@ -116,3 +116,23 @@ Theorem C10_open_numbers_in_step : forall c evs flags,
   cagree r = true /\ ccount r = cnt s.
 Proof. exact open_numbers_in_step. Qed.
 Print Assumptions C10_open_numbers_in_step.
+
+(* "an argument ... violates a schema on either side ... fails exactly that call ... every other outstanding or later call
+   is unaffected", receive side: for every sequence of slicer behaviours and EVERY choice of the tokens at which unslicers of
+   the receiving side raise Violation (schema violations, unknown method/object, an `error`/`answer` for a request that was
+   already retired ...), no unslicer is left on the stack, the nesting follows the sender's, and once the sender is back at
+   its RootSlicer the receiver discards nothing.  That Call/Answer/ErrorUnslicer.reportViolation give their sequence up is
+   read from the source. *)
+Theorem C10_receiver_rejections_contained : forall c evs flags,
+  let s := run (init c) evs in
+  List.length flags = List.length (out s) ->
+  let r := crun (cinit c) (combine (out s) flags) in
+  cdown r = false /\ cdepth r = List.length (stack s) /\ (stack s = [] -> cdiscard r = false).
+Proof. exact receiver_rejections_contained. Qed.
+Print Assumptions C10_receiver_rejections_contained.
+
+(* "the caller's failure identifies the remote exception's type (by class name ...)": the class object in f.type is built
+   from the transmitted name alone; its __module__ + "." + __name__ (reflect.qual) is that name again *)
+Theorem C10_type_name_identified : forall t, In type_name_separator t -> requal type_name_separator t = t.
+Proof. intros t. apply type_name_identified. Qed.
+Print Assumptions C10_type_name_identified.
